@@ -447,7 +447,7 @@ REGISTRY = {
     },
     "C09": {
         "corr": lambda tier, seed: corr_race("C09", tier, seed),
-        "assumptions": ["freedom from data races, panics and deadlocks is a property of the running program: it is searched for with the Go race detector, recover, a watchdog and error classification on generated concurrent mixes; the theorems cover the lock protocol only (see level note)",
+        "assumptions": ["freedom from panics and from races below the lockset abstraction is a property of the running program: it is searched for with the Go race detector, recover, a watchdog and error classification on generated concurrent mixes; the theorems cover the lock protocol: lock ordering (no deadlock) and the lockset discipline over the access table extracted from the source on every run (translator T2c: gen/GenAccess.v; its path enumeration, object provenance and the DB.isMerging token are trusted)",
                         "the race detector sees the accesses that actually happen in a run; accesses through the memory-mapped region are invisible to it"],
     },
     "C10": {
